@@ -6,6 +6,8 @@ _HDR_Q = ("From Coq Require Import ZArith QArith Qminmax Qabs Bool List.\n"
           "From RV Require Import Base.QB Proofs.Tie_PyLoops.\nImport ListNotations.\nOpen Scope Q_scope.\n")
 
 _QQQ = "Q -> Q -> Q"
+_HL = "(middle_nd2 (left_point_nd2 axes0 axes1 origin_coordinate origin_coordinate) ((0 # 1), (0 # 1)))"
+_HR = "(middle_nd2 ((0 # 1), (0 # 1)) (right_point_nd2 axes0 axes1 origin_coordinate origin_coordinate))"
 
 SPECS = {
     # ---------------------------------------------------------------- C04: drift of the chain (loop with two accumulators)
@@ -24,13 +26,53 @@ SPECS = {
         "file": "rpylib/distribution/samplingfactory.py", "dom": "Q", "ext": "py2coq_loops", "header": _HDR_Q,
         "funcs": [
             {"file": "rpylib/grid/spatial.py", "py": "CTMCGrid.left_point", "coq": "left_point", "pyargs": ["coordinate"],
+             "decorators": ["singledispatchmethod"], "dispatch": {"variant": "base", "registered": ["Coordinate1D", "CoordinateND"]},
              "args": [("axes0", "list Q"), ("coordinate", "Z")], "ret": "Q",
              "lists": {"self.axes[0]": ("axes0", "Q")}, "int_names": ["coordinate"]},
             {"file": "rpylib/grid/spatial.py", "py": "CTMCGrid.right_point", "coq": "right_point", "pyargs": ["coordinate"],
+             "decorators": ["singledispatchmethod"], "dispatch": {"variant": "base", "registered": ["Coordinate1D", "CoordinateND"]},
              "args": [("axes0", "list Q"), ("coordinate", "Z")], "ret": "Q",
              "lists": {"self.axes[0]": ("axes0", "Q")}, "int_names": ["coordinate"]},
             {"file": "rpylib/grid/spatial.py", "py": "CTMCGrid.middle", "coq": "middle", "emitter": "py2coq_loops:registered",
              "variant_of": "float", "ext": "py2coq_loops", "pyargs": ["xi", "xip"], "args": [("xi", "Q"), ("xip", "Q")], "ret": "Q"},
+            # ---- wave 8 (audit5a X-d): the variants the call sites DISPATCH to.  compute_intensity_of_jumps and the coupling pass
+            # grid.origin_coordinate [+ increment], a Coordinate1D on a one-axis grid (CTMCGrid.__init__, pinned below) ->
+            # spatial.py `@left_point.register _(self, coordinate: Coordinate1D)`; grid[position] -> Grid.__getitem__ (base variant,
+            # `coordinates.value`).  On a two-axis grid: the CoordinateND variants (tuple(genexp) over enumerate(coordinate), the
+            # coordinate read as a 2-tuple of ints) and the base (tuple) variant of middle.  Tie_Chain.v / Tie_Chain2d.v prove them
+            # equal to the int variant (per axis) -- right_point's CoordinateND variant clamps EVERY axis with len(axes[0]).
+            {"file": "rpylib/grid/spatial.py", "py": "CTMCGrid.left_point", "coq": "left_point_c1d", "emitter": "py2coq_loops:registered",
+             "variant_of": "Coordinate1D", "pyargs": ["coordinate"], "args": [("axes0", "list Q"), ("coordinate", "Z")], "ret": "Q",
+             "lists": {"self.axes[0]": ("axes0", "Q")}, "int_attrs": {"coordinate.value": "coordinate"}},
+            {"file": "rpylib/grid/spatial.py", "py": "CTMCGrid.right_point", "coq": "right_point_c1d", "emitter": "py2coq_loops:registered",
+             "variant_of": "Coordinate1D", "pyargs": ["coordinate"], "args": [("axes0", "list Q"), ("coordinate", "Z")], "ret": "Q",
+             "lists": {"self.axes[0]": ("axes0", "Q")}, "int_attrs": {"coordinate.value": "coordinate"}},
+            {"file": "rpylib/grid/grid.py", "py": "Grid.__getitem__", "coq": "getitem_c1d", "pyargs": ["coordinates"],
+             "decorators": ["singledispatchmethod"], "dispatch": {"variant": "base", "registered": ["CoordinateND"]}, "args": [("axes0", "list Q"), ("coordinates", "Z")], "ret": "Q",
+             "lists": {"self.axes[0]": ("axes0", "Q")}, "int_attrs": {"coordinates.value": "coordinates"}},
+            {"file": "rpylib/grid/spatial.py", "py": "CTMCGrid.left_point", "coq": "left_point_nd2", "emitter": "py2coq_loops:registered",
+             "variant_of": "CoordinateND", "pyargs": ["coordinate"], "ret": "Q * Q", "ret_tuple": 2,
+             "args": [("axes0", "list Q"), ("axes1", "list Q"), ("c0", "Z"), ("c1", "Z")], "static_args": {"coordinate": ["Z:c0", "Z:c1"]},
+             "lists": {"self.axes[0]": ("axes0", "Q"), "self.axes[1]": ("axes1", "Q")}},
+            {"file": "rpylib/grid/spatial.py", "py": "CTMCGrid.right_point", "coq": "right_point_nd2", "emitter": "py2coq_loops:registered",
+             "variant_of": "CoordinateND", "pyargs": ["coordinate"], "ret": "Q * Q", "ret_tuple": 2,
+             "args": [("axes0", "list Q"), ("axes1", "list Q"), ("c0", "Z"), ("c1", "Z")], "static_args": {"coordinate": ["Z:c0", "Z:c1"]},
+             "lists": {"self.axes[0]": ("axes0", "Q"), "self.axes[1]": ("axes1", "Q")}},
+            {"file": "rpylib/grid/spatial.py", "py": "CTMCGrid.middle", "coq": "middle_nd2", "pyargs": ["xi", "xip"],
+             "decorators": ["singledispatchmethod"], "dispatch": {"variant": "base", "registered": ["float"]}, "ret": "Q * Q", "ret_tuple": 2, "args": [("xi", "Q * Q"), ("xip", "Q * Q")],
+             "static_args": {"xi": ["(fst xi)", "(snd xi)"], "xip": ["(fst xip)", "(snd xip)"]}},
+            # NOT a translation: the stores of CTMCGrid.__init__ into origin / origin_coordinate that the readings `grid.origin = 0`
+            # (= (0, 0) on two axes), `grid.origin_coordinate` = Coordinate1D(o) (= CoordinateND((o, o))) were written against
+            {"file": "rpylib/grid/spatial.py", "py": "CTMCGrid.__init__", "coq": "pin_ctmcgrid_init", "emitter": "py2coq_loops:pinned",
+             "pin_targets": ["self.origin", "self.origin_coordinate"],
+             "pin": [([], "self.origin = 0.0"), ([], "self.origin_coordinate = Coordinates(origin_coordinate)"),
+                     (["(dimension := len(axes)) > 1"], "self.origin = tuple([0.0] * dimension)"),
+                     (["(dimension := len(axes)) > 1"], "self.origin_coordinate = Coordinates([origin_coordinate] * dimension)")]},
+            # LevyModel.mass as compute_intensity_of_jumps calls it for a 1-d model: a, b are 1-tuples (not Real), no indices
+            {"file": "rpylib/model/levymodel/levymodel.py", "py": "LevyModel.mass", "coq": "levymodel_mass_1d", "pyargs": ["a", "b", "indices"], "defaults": {"indices": "None"},
+             "args": [("nu_integrate", _QQQ), ("a0", "Q"), ("b0", "Q")], "ret": "Q",
+             "static_tests": {"indices": False, "isinstance(a, Real)": False}, "static_args": {"a": ["a0"], "b": ["b0"]},
+             "kw_calls": {"self.levy_triplet.nu.integrate": ("nu_integrate", ["a", "b"])}},
             # q = np.zeros(len(axes0)); for k, x in enumerate(axes0): if k != m_middle: q[k] = int_lm(cell of k)
             {"py": "create_q_vector", "coq": "create_q_vector", "pyargs": ["levy_measure", "grid"],
              "args": [("int_lm", _QQQ), ("grid_middle", _QQQ), ("axes0", "list Q"), ("origin_coordinate", "Z")], "ret": "list Q",
@@ -47,8 +89,8 @@ SPECS = {
              "args": [("mass", _QQQ), ("grid_middle", _QQQ), ("axes0", "list Q"), ("origin_coordinate", "Z")], "ret": "Q",
              "static_tests": {"model.dimension_model() == 1": True},
              "attrs": {"grid.origin": "(0 # 1)"}, "int_attrs": {"grid.origin_coordinate": "origin_coordinate"},
-             "calls": {"grid.middle": "grid_middle"}, "kw_calls": {"model.mass": ("mass", ["a", "b"])},
-             "int_calls": {"grid.left_point": "left_point axes0", "grid.right_point": "right_point axes0"},
+             "calls": {"grid.middle": "grid_middle"}, "kw_calls": {"model.mass": ("levymodel_mass_1d mass", ["a", "b"])},
+             "int_calls": {"grid.left_point": "left_point_c1d axes0", "grid.right_point": "right_point_c1d axes0"},   # wave 8: Coordinate1D
              "lists": {"grid.axes[0]": ("axes0", "Q")}},
         ],
     },
@@ -71,6 +113,21 @@ SPECS = {
                      ["(grid_middle (left_point axes0 origin_coordinate) (0 # 1))", "(grid_middle (left_point axes1 origin_coordinate) (0 # 1))"],
                  "grid.middle(grid.origin, grid.right_point(grid.origin_coordinate))":
                      ["(grid_middle (0 # 1) (right_point axes0 origin_coordinate))", "(grid_middle (0 # 1) (right_point axes1 origin_coordinate))"]},
+             "kw_calls": {"model.mass": ("mass2", ["a", "b"])},
+             "lists": {"grid.axes[0]": ("axes0", "Q"), "grid.axes[1]": ("axes1", "Q")}},
+            # wave 8 (audit5a X-d): the same function with h_left / h_right built from the TRANSLATED variants the calls dispatch to
+            # on a two-axis grid -- left_point_nd2 / right_point_nd2 (CoordinateND) and middle_nd2 (tuple) of Gen/GenTieChain.v --
+            # applied to grid.origin_coordinate = (o, o) and grid.origin = (0, 0) (CTMCGrid.__init__, pinned in GenTieChain).
+            # static_values here only names the call: its value is the application of the generated definitions, not a hand term.
+            # Tie_Chain2d.v: equal to the definition above (hence to Chain.intensity2) when the clamp len(axes[0]) of
+            # right_point's CoordinateND variant agrees with the second axis' own; a counterexample otherwise.
+            {"py": "compute_intensity_of_jumps", "coq": "compute_intensity_of_jumps_2d_nd", "pyargs": ["model", "grid"],
+             "emitter": "py2coq_loops:checked", "require_imports": {"product": "itertools"},
+             "args": [("mass2", "Q * Q -> Q * Q -> Q"), ("axes0", "list Q"), ("axes1", "list Q"), ("origin_coordinate", "Z")], "ret": "Q",
+             "static_tests": {"model.dimension_model() == 1": False},
+             "static_values": {
+                 "grid.middle(grid.left_point(grid.origin_coordinate), grid.origin)": [_f + _HL + ")" for _f in ("(fst ", "(snd ")],
+                 "grid.middle(grid.origin, grid.right_point(grid.origin_coordinate))": [_f + _HR + ")" for _f in ("(fst ", "(snd ")]},
              "kw_calls": {"model.mass": ("mass2", ["a", "b"])},
              "lists": {"grid.axes[0]": ("axes0", "Q"), "grid.axes[1]": ("axes1", "Q")}},
         ],
@@ -119,18 +176,24 @@ SPECS = {
              "pyargs": ["grid", "mass", "increment"],
              "args": [("mass", _QQQ), ("grid_middle", _QQQ), ("axes0", "list Q"), ("origin_coordinate", "Z"), ("increment", "Z")],
              "ret": "Q", "int_names": ["increment"], "int_attrs": {"grid.origin_coordinate": "origin_coordinate"},
-             "lists": {"grid": ("axes0", "Q")}, "calls": {"mass": "mass", "grid.middle": "grid_middle"},
-             "int_calls": {"grid.left_point": "left_point axes0", "grid.right_point": "right_point axes0"}},
+             "decorators": ["staticmethod"], "subscript_calls": {"grid": "getitem_c1d axes0"}, "calls": {"mass": "mass", "grid.middle": "grid_middle"},
+             "int_calls": {"grid.left_point": "left_point_c1d axes0", "grid.right_point": "right_point_c1d axes0"}},   # wave 8: Coordinate1D
             # the coupling uniform is the parameter u; the call of probability_to_right_jump is matched textually
             {"py": "CouplingSimulation.coupling_state", "coq": "coupling_state", "pyargs": ["increment"],
              "args": [("mass", _QQQ), ("grid_middle", _QQQ), ("axes0", "list Q"), ("origin_coordinate", "Z"), ("increment", "Z"), ("u", "Q")],
              "ret": "Q", "int_names": ["increment"], "int_attrs": {"grid.origin_coordinate": "origin_coordinate"},
-             "lists": {"grid": ("axes0", "Q")}, "skip_stmts": ["grid = self.coupling_process.grid"],
+             "subscript_calls": {"grid": "getitem_c1d axes0"}, "skip_stmts": ["grid = self.coupling_process.grid"],
              "attrs": {"self.coupling_process.fine_process.model.mass": "mass"},
              "subst": {"self.coupling_process.uniform.sample()": "u",
                        "self.probability_to_right_jump(grid, mass, increment)":
                            "(probability_to_right_jump mass grid_middle axes0 origin_coordinate increment)"},
-             "int_calls": {"grid.left_point": "left_point axes0", "grid.right_point": "right_point axes0"}},
+             "int_calls": {"grid.left_point": "left_point_c1d axes0", "grid.right_point": "right_point_c1d axes0"}},   # wave 8: Coordinate1D
         ],
     },
 }
+
+# wave 8: every TIE function goes through the source guards of py2coq_loops (one def per name, declared decorators, no
+# re-bound module alias / built-in); `registered`, `checked`, `pinned` call them themselves
+for _spec in SPECS.values():
+    for _fn in _spec["funcs"]:
+        _fn.setdefault("emitter", "py2coq_loops:guarded")
